@@ -34,6 +34,7 @@ func main() {
 	solver := flag.String("solver", "z3", "z3 | z3-new | cvc5")
 	budget := flag.Duration("budget", 0, "wall-clock budget per harness (0 = none)")
 	verbose := flag.Bool("v", false, "verbose")
+	tier := flag.String("tier", "quick", "quick | thorough (read by harnesses through zzverif.Thorough)")
 	smt := flag.Bool("smt", false, "trace SMT of worker 0")
 	allow := flag.String("allow-init", "", "extra packages whose init is executed")
 	flag.Parse()
@@ -80,6 +81,7 @@ func main() {
 	}
 	loadS := time.Since(t0).Seconds()
 	ex.Workers, ex.MaxPaths, ex.MaxSteps, ex.TimeoutMs, ex.SolverKind, ex.Verbose, ex.TraceSMT = *workers, *maxPaths, *maxSteps, *timeout, *solver, *verbose, *smt
+	ex.Thorough = *tier == "thorough"
 	for _, k := range strings.Split(*known, ",") {
 		if k != "" {
 			ex.KnownActive[k] = true
